@@ -67,6 +67,13 @@ type Config struct {
 	// LateSchedule: the nodes' factories are constructed with an older schedule and are told the
 	// schedule in force through GasScheduleChange BEFORE their first container is created
 	LateSchedule bool `json:"late_schedule,omitempty"`
+	// OddUser: one user's address has the shape of a per-shard system account address
+	OddUser bool `json:"odd_user,omitempty"`
+	// HostReusesDNSMap: after building, the host adds a never-configured address (user 0) to the map
+	// object it had passed to the factory and drops a configured one
+	HostReusesDNSMap bool `json:"host_reuses_dns_map,omitempty"`
+	// LongIDs: token identifiers are 60+ bytes long and share a 54-byte prefix
+	LongIDs bool `json:"long_ids,omitempty"`
 }
 
 // Event is one step of a run; a replay file is a Config plus a list of Events.
@@ -76,7 +83,7 @@ type Event struct {
 	Shard uint32    `json:"shard,omitempty"`
 	Tx    *TxJSON   `json:"tx,omitempty"`
 	ID    string    `json:"id,omitempty"`
-	Fault []int     `json:"fault,omitempty"` // [kind, k]
+	Fault []int     `json:"fault,omitempty"` // [kind, k] or [kind, k, manifestation]
 	SC    *SCAction `json:"sc,omitempty"`
 	Epoch uint32    `json:"epoch,omitempty"`
 	Sched *Schedule `json:"sched,omitempty"`
@@ -172,7 +179,9 @@ type World struct {
 	lastHash uint64
 	// LastCredited: the contract that most recently accepted a destination-side transfer (scheduler bias)
 	LastCredited []byte
-	parser   vmcommon.ESDTTransferParser
+	parser       vmcommon.ESDTTransferParser
+	// toConsume: outputs of this event's successful calls, used up by their owner at the end of the event
+	toConsume []*vmcommon.VMOutput
 	// options
 	CheckCodec  bool
 	StopAtFirst bool
@@ -233,8 +242,15 @@ func (w *World) Env(nd *Node) *spec.Env {
 	for _, d := range nd.Cfg.DNS {
 		dns[d] = true
 	}
-	return &spec.Env{Shard: nd.ID, NumShards: nd.N, Sched: spec.GasSched{Base: nd.Sched.Base, BuiltIn: nd.Sched.BuiltIn}, DNS: dns,
+	env := &spec.Env{Shard: nd.ID, NumShards: nd.N, Sched: spec.GasSched{Base: nd.Sched.Base, BuiltIn: nd.Sched.BuiltIn}, DNS: dns,
 		NameChange: nd.Cfg.EnableUserNameChange, PayState: nd.Pay.StateOf}
+	if len(nd.Direct) > 0 {
+		env.SchedOf = map[string]spec.GasSched{}
+		for fn, s := range nd.Direct {
+			env.SchedOf[fn] = spec.GasSched{Base: s.Base, BuiltIn: s.BuiltIn}
+		}
+	}
+	return env
 }
 
 // CallOf converts an execution record into the oracle's Call.
@@ -274,10 +290,14 @@ var realCallParser = parsers.NewCallArgsParser()
 func (w *World) Run(m *Msg, fault []int) (*Exec, *spec.Verdict) {
 	nd := w.Nodes[m.DstShard]
 	fk, fn := -1, 0
-	if len(fault) == 2 {
+	if len(fault) >= 2 {
 		fk, fn = fault[0], fault[1]
 	}
+	if len(fault) >= 3 {
+		nd.FaultAlt = fault[2]
+	}
 	ex := nd.Execute(m, fk, fn)
+	nd.FaultAlt = 0
 	w.Stats.Calls++
 	for i, n := range ex.Deps {
 		w.Stats.DepCalls[i] += n
@@ -297,6 +317,9 @@ func (w *World) Run(m *Msg, fault []int) (*Exec, *spec.Verdict) {
 	w.checkActivation(nd, ex.Func, true)
 	if ex.FaultHit {
 		w.Stats.Faults["dep:"+DepNames[fk]]++
+		if len(fault) >= 3 && fault[2] != 0 {
+			w.Stats.Faults["dep-other-manifestation:"+DepNames[fk]]++
+		}
 	}
 	w.parserTotality(ex)
 	call := CallOf(ex)
@@ -385,6 +408,7 @@ func (w *World) Run(m *Msg, fault []int) (*Exec, *spec.Verdict) {
 	w.wireChecks(ex, vd)
 	w.storageRoundTrip(ex)
 	w.emit(nd, ex, vd)
+	w.toConsume = append(w.toConsume, ex.Out)
 	return ex, vd
 }
 
